@@ -27,7 +27,7 @@ Definition blk_mid_linked (st : nat -> morc) (n : nat) (h x : list byte) : optio
   let o := st n in
   if blk_guard x && morc_consistent o h x then
     match hs_continue (mo_m o) (mo_c o) (mo_src o) (len x) (len x - 1) with
-    | Some (HRes ret consumed out hw c') => blk_out ret out
+    | Some (HRes ret consumed out hw c') => blk_out_g ret out
     | None => None
     end
   else None.
@@ -44,7 +44,7 @@ Proof.
   set (lim := if len x - 1 <? compressBound (len x) then LimitedOutput else NotLimited).
   assert (Hlim : lim <> FillOutput) by (subst lim; destruct (len x - 1 <? compressBound (len x)); discriminate).
   destruct (hs_continue_generic (mo_m (st n)) (mo_c (st n)) (mo_src (st n)) (len x) (len x - 1) lim) as [[ret consumed out hw c']|] eqn:E; [|discriminate].
-  intros H. destruct (blk_out_some _ _ _ H) as (Hp & -> & _).
+  intros H. destruct (blk_out_g_some _ _ _ H) as (Hp & -> & _).
   destruct (hs_continue_generic_sound (mo_m (st n)) (mo_c (st n)) (mo_src (st n)) (len x) (len x - 1) lim ret consumed out hw c'
               O1 O2 O3 O4 ltac:(lia) ltac:(lia) E) as (ke & dc & He & Hr & Hdc & _ & Hpost).
   pose proof (hs_call_decodes (mo_m (st n)) ke dc (mo_src (st n)) (len x) (len x - 1) lim ret consumed out hw c' (mo_H (st n))
@@ -60,7 +60,7 @@ Proof.
   intros n h x c. unfold blk_mid_linked. cbv zeta.
   destruct (blk_guard x && morc_consistent (st n) h x); [|discriminate].
   destruct (hs_continue _ _ _ _ _) as [[ret consumed out hw c']|]; [|discriminate].
-  intros H. destruct (blk_out_some _ _ _ H) as (_ & _ & Hb). exact Hb.
+  intros H. destruct (blk_out_g_some _ _ _ H) as (_ & _ & Hb). exact Hb.
 Qed.
 
 Print Assumptions blk_mid_linked_contract.
